@@ -683,6 +683,10 @@ func (p *parser) readEqToken(token []byte) {
 
 func (p *parser) readEqList() (list []any) {
 	p.pos++
+	if p.nextNonSpace() == ']' {
+		p.pos++
+		return []any{}
+	}
 List:
 	for p.pos < len(p.buf) {
 		eq := p.readEq()
